@@ -157,7 +157,62 @@ func genHistory(g *sgen, c hcfg) []sop {
 			ops = append(ops, sop{kind: opFind, filter: f.Immutable()})
 		}
 	}
-	flt := func() types.Map {
+	var usedFilters []types.Map
+	// a filter aimed at an existing index: conditions on a prefix of its keys (equalities, ranges) and
+	// sometimes on a later key only
+	var knownDocs []types.Map
+	var targetedFor func(ks []string) types.Map
+	targeted := func() types.Map { return targetedFor(idxKeys[r.Intn(len(idxKeys))]) }
+	targetedFor = func(ks []string) types.Map {
+		f := types.NewMapWithSize(len(ks))
+		upto := 1 + r.Intn(len(ks))
+		var like types.Map // build the conditions from the values of a document that was inserted
+		if len(knownDocs) > 0 && r.Intn(3) > 0 {
+			like = knownDocs[r.Intn(len(knownDocs))]
+			if r.Intn(2) == 0 {
+				upto = len(ks)
+			}
+		}
+		for i, k := range ks[:upto] {
+			if i > 0 && r.Intn(4) == 0 && like == nil {
+				continue
+			}
+			if like != nil {
+				if v := like.Get(str(k)); v != nil {
+					if _, isMap := v.(types.Map); !isMap {
+						switch r.Intn(4) {
+						case 0:
+							f.Set(str(k), types.NewMap(str("$eq"), v))
+						case 1:
+							f.Set(str(k), types.NewMap(str("$gte"), v, str("$lte"), v))
+						default:
+							f.Set(str(k), v)
+						}
+						continue
+					}
+				}
+			}
+			switch r.Intn(5) {
+			case 0, 1:
+				f.Set(str(k), g.scalar())
+			case 2:
+				f.Set(str(k), types.NewMap(str("$eq"), g.scalar()))
+			case 3:
+				lo := r.Intn(3)
+				f.Set(str(k), types.NewMap(str("$gte"), types.NewInt(lo), str("$lte"), types.NewInt(lo+r.Intn(3))))
+			default:
+				f.Set(str(k), g.cond())
+			}
+		}
+		if r.Intn(4) == 0 {
+			f.Set(str("$or"), types.NewSlice(g.filter(0), g.filter(0)))
+		}
+		return f.Immutable()
+	}
+	flt0 := func() types.Map {
+		if c.indexes && len(idxKeys) > 0 && r.Intn(2) == 0 {
+			return targeted()
+		}
 		switch r.Intn(12) {
 		case 0:
 			return nil
@@ -167,6 +222,16 @@ func genHistory(g *sgen, c hcfg) []sop {
 			}
 		}
 		return g.filter(r.Intn(3))
+	}
+	flt := func() types.Map {
+		if len(usedFilters) > 0 && r.Intn(4) == 0 {
+			return usedFilters[r.Intn(len(usedFilters))] // the same filter again, later in the history
+		}
+		f := flt0()
+		if f != nil {
+			usedFilters = append(usedFilters, f)
+		}
+		return f
 	}
 	if r.Intn(10) == 0 { // upsert into an empty store through a filter without an equality skeleton
 		var f types.Map
@@ -191,6 +256,7 @@ func genHistory(g *sgen, c hcfg) []sop {
 				}
 				docs = append(docs, g.doc(id))
 			}
+			knownDocs = append(knownDocs, docs...)
 			ops = append(ops, sop{kind: opInsert, docs: docs})
 		case k < 48:
 			o := sop{kind: opUpdate, filter: flt(), upd: g.update()}
@@ -216,15 +282,25 @@ func genHistory(g *sgen, c hcfg) []sop {
 			}
 			ops = append(ops, o)
 		case k < 92 && c.indexes:
-			keys := [][]string{{"a"}, {"b"}, {"a", "b"}, {"b", "a"}, {"c", "a"}, {"a", "b", "c"}}[r.Intn(6)]
+			keys := [][]string{{"a"}, {"b"}, {"a", "b"}, {"b", "a"}, {"c", "a"}, {"a", "b", "c"}, {"id", "a"}, {"a", "c"}}[r.Intn(8)]
+			if len(idxKeys) > 0 && r.Intn(3) == 0 {
+				keys = idxKeys[r.Intn(len(idxKeys))] // declare an index again on keys that already have one
+			}
 			if r.Intn(4) == 0 && len(idxKeys) > 0 {
 				i := r.Intn(len(idxKeys))
 				ops = append(ops, sop{kind: opUnindex, keys: idxKeys[i]})
 				idxKeys = append(idxKeys[:i:i], idxKeys[i+1:]...)
 			} else {
 				o := sop{kind: opIndex, keys: keys, uniq: r.Intn(3) == 0 || (c.failing && r.Intn(2) == 0)}
-				if r.Intn(4) == 0 && c.prop != "C11" {
-					o.filter = types.NewMap(str(keys[0]), types.NewMap(str("$exists"), types.NewBoolean(true)))
+				if r.Intn(3) == 0 && c.prop != "C11" {
+					switch r.Intn(3) {
+					case 0:
+						o.filter = types.NewMap(str(keys[0]), types.NewMap(str("$exists"), types.NewBoolean(true)))
+					case 1: // partial on a field that is not a key of the index
+						o.filter = types.NewMap(str("c"), types.NewMap(str("$exists"), types.NewBoolean(true)))
+					default:
+						o.filter = types.NewMap(str("c"), g.scalar())
+					}
 				}
 				ops = append(ops, o)
 				idxKeys = append(idxKeys, keys)
@@ -252,6 +328,44 @@ func genHistory(g *sgen, c hcfg) []sop {
 		if c.failing {
 			probe()
 		}
+	}
+	if c.indexes && r.Intn(5) == 0 {
+		// scenario: an index is declared, used, declared again as unique (which the data may violate), and the
+		// same filters are asked again; then dropped and asked once more
+		ks := [][]string{{"a"}, {"b"}, {"a", "b"}, {"c"}}[r.Intn(4)]
+		f1, f2 := targetedFor(ks), targetedFor(ks)
+		ops = append(ops, sop{kind: opIndex, keys: ks}, sop{kind: opFind, filter: f1}, sop{kind: opFind, filter: f2},
+			sop{kind: opIndex, keys: ks, uniq: true}, sop{kind: opFind, filter: f1}, sop{kind: opFind, filter: f2},
+			sop{kind: opUnindex, keys: ks}, sop{kind: opFind, filter: f1})
+		if c.failing {
+			probe()
+		}
+	}
+	if c.failing && r.Intn(4) == 0 {
+		// scenario: a unique index restricted by a partial filter on another field; documents that share the key
+		// but not the filter; an update that moves a document under the filter (must be rejected and change
+		// nothing); the same index declared again under a different filter that the data violates
+		key, other := "a", "c"
+		v := g.scalar()
+		in, out := types.NewInt(1), types.NewInt(0)
+		mk := func(id int, fv types.Value) types.Map {
+			return types.NewMap(str("id"), types.NewInt(id), str(key), v, str(other), fv)
+		}
+		one := func(id int) types.Map { return types.NewMap(str("id"), types.NewInt(id)) }
+		i1, i2, i3 := 5+r.Intn(3), 8+r.Intn(3), 11+r.Intn(3)
+		ops = append(ops,
+			sop{kind: opIndex, keys: []string{key}, uniq: true, filter: types.NewMap(str(other), in)},
+			sop{kind: opInsert, docs: []types.Map{mk(i1, in)}},
+			sop{kind: opInsert, docs: []types.Map{mk(i2, out)}},
+			sop{kind: opInsert, docs: []types.Map{mk(i3, out)}},
+			sop{kind: opUpdate, filter: one(i2), upd: types.NewMap(str("$set"), types.NewMap(str("b"), types.NewInt(2)))},
+			sop{kind: opUpdate, filter: one(i2), upd: types.NewMap(str("$set"), types.NewMap(str(other), in))})
+		probe()
+		ops = append(ops, sop{kind: opFind, filter: one(i2)}, sop{kind: opFind, filter: types.NewMap(str(key), v)},
+			sop{kind: opIndex, keys: []string{key}, uniq: true, filter: types.NewMap(str(other), out)})
+		probe()
+		ops = append(ops, sop{kind: opInsert, docs: []types.Map{mk(i1+20, in)}})
+		probe()
 	}
 	ops = append(ops, sop{kind: opFind})
 	for i := 0; i < nwatch; i++ {
